@@ -207,17 +207,30 @@ def rule_order(ctx, px):
         ctx.ob(R, s.module.rel, f"{s.short} :: stores the override without touching the merged configuration", not touches,
                "" if not touches else "setter merges immediately (order with files would depend on call order)", s.node.lineno)
     cr = b.methods["create"]
-    ups = [c for c in ast.walk(cr.node) if isinstance(c, ast.Call) and isinstance(c.func, ast.Attribute) and c.func.attr == "update_section"]
-    ok = len(ups) == 1 and len(ups[0].args) == 2 and ast.unparse(ups[0].args[1]) == "self._target_language_config" \
-        and ast.unparse(ups[0].func.value) == "self.config"
+    # the merge of the stored overrides: self.config.update_section(<section>, self._target_language_config), in create() itself or in a
+    # private helper create() calls; `site` is the statement of create() that performs it (the call, or the call of the helper)
+    ups, site = [], None
+    for c in ast.walk(cr.node):
+        if isinstance(c, ast.Call) and isinstance(c.func, ast.Attribute) and c.func.attr == "update_section":
+            ups.append((c, cr))
+            site = c
+    if not ups:
+        for h in pyfront.private_helpers(px, cr):
+            hc = [c for c in ast.walk(h.node) if isinstance(c, ast.Call) and isinstance(c.func, ast.Attribute) and c.func.attr == "update_section"]
+            if hc:
+                ups += [(c, h) for c in hc]
+                site = next((c for c in ast.walk(cr.node) if isinstance(c, ast.Call) and isinstance(c.func, ast.Attribute) and c.func.attr == h.name), None)
+    ok = len(ups) == 1 and site is not None and len(ups[0][0].args) == 2 and ast.unparse(ups[0][0].args[1]) == "self._target_language_config" \
+        and ast.unparse(ups[0][0].func.value) == "self.config" and not pyfront.guards_of(ups[0][1].node, ups[0][0])
     ctx.ob(R, cr.module.rel, f"{cr.short} :: merges the stored overrides into the target language section", ok, "", cr.node.lineno)
     if ok:
         # ...before the language object (which snapshots options) is created
         news = [c for c in ast.walk(cr.node) if isinstance(c, ast.Call) and isinstance(c.func, ast.Attribute) and c.func.attr.startswith("_new_language")]
-        ok2 = bool(news) and all(u.lineno < nn.lineno for u in ups for nn in news)
-        ctx.ob(R, cr.module.rel, f"{cr.short} :: overrides merged before the Language object is built", ok2, "", cr.node.lineno)
-        gd = pyfront.guards_of(cr.node, ups[0])
-        ctx.ob(R, cr.module.rel, f"{cr.short} :: override merge is unconditional", not gd, "", ups[0].lineno)
+        ok2 = bool(news) and all(site.lineno < nn.lineno for nn in news)
+        ctx.ob(R, cr.module.rel, f"{cr.short} :: overrides merged before the Language object is built", ok2,
+               "" if ok2 else "the Language object is created first: it validates / expands its options (language-standard shorthands) before the overrides are in", cr.node.lineno)
+        gd = pyfront.guards_of(cr.node, site)
+        ctx.ob(R, cr.module.rel, f"{cr.short} :: override merge is unconditional", not gd, "", site.lineno)
     # CLI calls them in order: add_config_files before create; create is what is returned
     f = px.func(RUN_MOD, "ArgparseRunner._create_language_context")
     bnames = _builder_names(f)
@@ -252,17 +265,59 @@ def rule_order(ctx, px):
     ok = len(scalar_stores) == 1 and f"DefaultValue.assign_to_if_not_default({d_t}, {d_k}, {d_v})" in ast.unparse(scalar_stores[0])
     ctx.ob(R, du.module.rel, f"{du.short} :: scalars are assigned only through DefaultValue.assign_to_if_not_default", ok,
            "" if ok else "scalar branch: " + "; ".join(ast.unparse(s) for s in scalar_stores), du.node.lineno)
-    # assign_to_if_not_default shape: returns early (keeps target) iff value is Default and existing is not
+    # assign_to_if_not_default, path by path: the existing entry is kept exactly when the new value is a default and an entry exists that
+    # is not a default; presence is decided by the key (KeyError / `in`), never by the truthiness of the existing value
     a = px.func(UTIL, "DefaultValue.assign_to_if_not_default")
-    keep = []
-    for st, gd in pyfront.walk_guarded(a.node.body):
-        if isinstance(st, ast.Return) and ast.unparse(st.value) == "target[key]":
-            keep.append(pyfront.guard_terms(gd))
-    ok = len(keep) == 1 and ("isinstance(value, DefaultValue)", True) in keep[0] and ("isinstance(target[key], DefaultValue)", False) in keep[0]
-    ctx.ob(R, a.module.rel, f"{a.short} :: keeps the existing value only when the new one is a default and the existing one is not", ok,
-           "" if ok else f"keep conditions: {keep}", a.node.lineno)
-    asg = [s for s in a.node.body if isinstance(s, ast.Assign) and ast.unparse(s.targets[0]) == "target[key]" and ast.unparse(s.value) == "value"]
-    ctx.ob(R, a.module.rel, f"{a.short} :: otherwise assigns the new value", len(asg) == 1, "", a.node.lineno)
+    aps = [x.arg for x in a.node.args.args if x.arg not in ("self", "cls")]
+    tgt, key, val = aps[0], aps[1], aps[2]
+    existing = {f"{tgt}[{key}]"}
+    for n_ in ast.walk(a.node):
+        if isinstance(n_, ast.Assign) and isinstance(n_.targets[0], ast.Name) and ast.unparse(n_.value) in (f"{tgt}[{key}]", f"{tgt}.get({key})", f"{tgt}.get({key}, None)"):
+            existing.add(n_.targets[0].id)
+    V_DEF = f"isinstance({val}, DefaultValue)"
+    E_DEF = {f"isinstance({e}, DefaultValue)" for e in existing}
+    ABSENT_T = {f"{key} not in {tgt}", "except KeyError", "except LookupError"} | {f"{e} is None" for e in existing if "[" not in e}
+    ABSENT_F = {f"{key} in {tgt}"} | {f"{e} is not None" for e in existing if "[" not in e}
+    n_keep = n_assign = 0
+    for path in pyfront.enumerate_paths(a.node.body):
+        if path.outcome != "return":
+            continue
+        r = path.stmts[-1]
+        conds = [(t_ if isinstance(t_, str) else ast.unparse(t_), p_) if isinstance(t_, str) else (t_, p_) for t_, p_ in path.conds]
+        terms = []
+        for t_, p_ in path.conds:
+            if isinstance(t_, str):
+                terms.append((t_, p_))
+            else:
+                terms += pyfront.guard_terms([(t_, p_)])
+        stores = [st for st in path.stmts if isinstance(st, ast.Assign) and ast.unparse(st.targets[0]) == f"{tgt}[{key}]"]
+        returns_existing = r.value is not None and ast.unparse(r.value) in existing
+        shown = [(e[:50], p_) for e, p_ in terms]
+        if returns_existing and not stores:
+            n_keep += 1
+            ok = (V_DEF, True) in terms and any((e, False) in terms for e in E_DEF) and not any(e in existing and p_ for e, p_ in terms)
+            ctx.ob(R, a.module.rel, f"{a.short} :: path {shown} keeps the existing entry: only when the new value is a default and the entry is not", ok,
+                   "" if ok else "the entry is kept on a path that does not establish both facts (or that asks for the entry to be truthy)", r.lineno)
+        else:
+            n_assign += 1
+            stored_ok = len(stores) == 1 and ast.unparse(stores[0].value) == val and (r.value is None or ast.unparse(r.value) in (val, f"{tgt}[{key}]"))
+            # the path must establish: the value is explicit, or the entry is absent, or the entry is itself a default
+            fine = (V_DEF, False) in terms or any((e, True) in terms for e in E_DEF) or any((e, True) in terms for e in ABSENT_T) or any((e, False) in terms for e in ABSENT_F)
+            if not fine:
+                allowed = {V_DEF} | {f"not {e}" for e in E_DEF}
+                for e, p_ in terms:
+                    if p_:
+                        continue
+                    try:
+                        node = ast.parse(e, mode="eval").body
+                    except SyntaxError:
+                        continue
+                    if isinstance(node, ast.BoolOp) and isinstance(node.op, ast.And) and {ast.unparse(v_) for v_ in node.values} <= allowed:
+                        fine = True       # not (value is default and entry is not default)
+            ctx.ob(R, a.module.rel, f"{a.short} :: path {shown} assigns the new value: the value is explicit, the key is absent, or the entry is a default", stored_ok and fine,
+                   "" if stored_ok and fine else "a default-marked value can replace an explicitly configured entry on this path (e.g. an explicit false / 0 / '' tested "
+                   "for truthiness), or the value is not stored", r.lineno)
+    ctx.ob(R, a.module.rel, f"{a.short} :: has a keeping and an assigning path", n_keep >= 1 and n_assign >= 1, f"keep {n_keep}, assign {n_assign}", a.node.lineno)
     # cpp: per-standard defaults applied as a unit
     cpp = px.cls("nunavut.lang.cpp", "Language").methods["_validate_language_options"]
     ups = []
